@@ -43,6 +43,11 @@ FORMS = [
     "x[0] += y", "x[0] /= y", "<<<x => y>>>", "<<x, y>>", "<*a = x*>->a", "return x", "error x",
     "def f(a, b = x) a; f(y)", "def f(a...) a...; f(x, y)", "def f(a) a; f(a = x, b = y)", "fn(a) do a(y) end(x)",
     "x is in y", "x is not in y", "string(x)", "s('{x} {y}')",
+    # loop exits in every iteration form (also over inputs, objects and strings)
+    "for a in x do continue end", "for a in x do if a == y then continue; a end", "for a in x do break end",
+    "for a in keys x do continue end", "for a in values x do continue end", "for a in entries x do continue end",
+    "for a in x do for b in y do continue end end", "for a in x do do continue finally y end end",
+    "def f() do for a in x do return a end end; f()", "[a for a in x if y]", "for [a, b] in x do continue end",
 ]
 
 
